@@ -553,6 +553,20 @@ pub fn run_history(ctx: &mut Ctx, id: usize, h: &History) -> RunResult {
                 rr.oracle.push(("C12".into(), format!("static-marked file {} is not among the files after the generation", p)));
             }
         }
+        // C12 exact, contents: a generated path whose prior content carried no directive (or that did not exist) holds
+        // exactly the code of the current generation afterwards, nothing of what was there before
+        for (p, fresh) in &fr.plan {
+            let marked = before.get(p).map(|c| has(c, STATIC) || has(c, AFTER)).unwrap_or(false);
+            if !marked && o.code == Some(0) {
+                if let Some(got) = after.get(p) {
+                    if got != fresh {
+                        let class = if markers_free { "other" } else { "marker_in_code" };
+                        rr.oracle.push(("C12".into(), format!("[class={}] generated file {} does not hold the code of the current generation: {} bytes expected, {} found (prior content: {} bytes)",
+                                                              class, p, fresh.len(), got.len(), before.get(p).map(|c| c.len()).unwrap_or(0))));
+                    }
+                }
+            }
+        }
         // C12 crash convergence: compare with an uninterrupted run from the same prior state
         if crash_k.is_some() || st.crash_remove.is_some() {
             let d2 = ctx.fresh_dir();
